@@ -161,7 +161,9 @@ def layout_text(lay):
 
 def memref_ty(o):
     shp = "x".join(str(s) for s in o["shape"])
-    return f"memref<{shp}x{o['el']}{layout_text(o.get('layout'))}, \"L1\">"
+    space = o.get("space", "L1")          # None: no memory space yet (before set-memory-space)
+    sp = f', "{space}"' if space else ""
+    return f"memref<{shp}x{o['el']}{layout_text(o.get('layout'))}{sp}>"
 
 
 def op_text(case, k):
@@ -176,7 +178,9 @@ def op_text(case, k):
     nin = max(n - 1, 0)
     sargs = ", ".join(f"%s{k}_{i} : !dart.stream<{o['el']}>" for i, o in enumerate(ops))
     st0 = f"!dart.stream<{ops[0]['el']}>"
-    text = f'''  "dart.schedule"({", ".join(f"%a{k}_{i}" for i in range(n))}) <{{patterns = [{pats}], {accs}tiles = [[]], bounds = [{bstr}], operandSegmentSizes = array<i32: {nin}, {n - nin}>}}> ({{
+    opname = case.get("opname", "dart.schedule")
+    sched_props = f"tiles = [[]], bounds = [{bstr}], " if opname == "dart.schedule" else ""
+    text = f'''  "{opname}"({", ".join(f"%a{k}_{i}" for i in range(n))}) <{{patterns = [{pats}], {accs}{sched_props}operandSegmentSizes = array<i32: {nin}, {n - nin}>}}> ({{
   ^bb0({sargs}):
     %r{k} = "dart.generic"(%s{k}_0, %s{k}_0) <{{library_call = "k"}}> ({{
     ^bb1(%x{k} : i8, %y{k} : i8, %z{k} : i32):
@@ -204,6 +208,16 @@ def mlir_ops(op_cases, split=False):
 
 def mlir(case):
     return mlir_ops([case])
+
+
+def mlir_front(case):
+    """the op as it looks BEFORE set-memory-space: operands are function arguments or memref.alloc results that are
+    not (all) in "L1" yet; some carry an explicit layout"""
+    text, tys = op_text(case, 0)
+    args = ", ".join(f"%a0_{i} : {t}" for i, (t, o) in enumerate(zip(tys, case["operands"])) if o["src"] == "arg")
+    allocs = "".join(f"  %a0_{i} = memref.alloc() {{alignment = 64 : i64}} : {t}\n"
+                     for i, (t, o) in enumerate(zip(tys, case["operands"])) if o["src"] == "alloc")
+    return f"func.func @f({args}) {{\n{allocs}{text}  func.return\n}}"
 
 
 def row_major_strides(shape):
@@ -553,6 +567,35 @@ def gen_global(rng, divides=None):
     return c
 
 
+def gen_front(rng):
+    """the op BEFORE set-memory-space (the pass in front of set-memory-layout in the pipeline): operands are function
+    arguments or allocs, without memory space / in "L3" / already in "L1"; often one of them has an explicit layout"""
+    for _ in range(50):
+        c = gen_schedule(rng)
+        if all("A" in o for o in c["operands"]) and wellformed(c):
+            break
+    c = dict(c, kind="front", opname="dart.schedule" if rng.random() < 0.8 else "dart.operation")
+    ops = []
+    for o in c["operands"]:
+        o = dict(o, src=rng.choice(["alloc", "alloc", "arg"]), space=rng.choice([None, None, None, "L3", "L1"]), layout=None)
+        ops.append(o)
+    r = rng.random()
+    if r < 0.65:      # explicit layouts, mostly on an alloc that still has to move to L1
+        for o in rng.sample(ops, rng.choice([1, 1, 2]) if len(ops) > 1 else 1):
+            if rng.random() < 0.75:
+                lay = row_major_tsl(o["shape"])
+                if rng.random() < 0.4 and len(o["shape"]) >= 1 and o["shape"][-1] % 2 == 0 and o["shape"][-1] >= 4:
+                    n = o["shape"][-1]
+                    lay[-1] = [[n // 2 * 2, 2], [1, n // 2]]      # a tiled, padded innermost dimension
+                    for d in range(len(lay) - 2, -1, -1):
+                        lay[d] = [[lay[d][0][0] * 2, lay[d][0][1]]]
+                o["layout"] = ["tsl", lay]
+            else:
+                o["layout"] = ["strided", row_major_strides(o["shape"])]
+    c["operands"] = ops
+    return c
+
+
 def row_major_tsl(shape):
     lay = []
     s = 1
@@ -666,6 +709,8 @@ class C09(Prop):
             yield gen_multi(rng)
         for _ in range(120 if q else 1500):
             yield gen_global(rng)
+        for _ in range(150 if q else 2000):
+            yield gen_front(rng)
         for _ in range(150 if q else 3000):
             yield {"kind": "canon", "strides": gen_strides(rng, zeros=True)}
         for _ in range(100 if q else 2000):
@@ -695,6 +740,8 @@ class C09(Prop):
             return self.impl_schedule(case)
         if k == "global":
             return self.impl_global(case)
+        if k == "front":
+            return self.impl_front(case)
         if k == "canon":
             from snaxc.ir.tsl import Stride, TiledStride
             r = TiledStride([Stride(s, b) for s, b in case["strides"]]).canonicalize()
@@ -781,6 +828,47 @@ class C09(Prop):
                     r["wired"] = False
         return res
 
+    def impl_front(self, case):
+        """the passes in front of set-memory-layout in the pipeline, then set-memory-layout: what the op consumes afterwards"""
+        import snaxrun
+        from snaxc.dialects import dart
+        from snaxc.dialects.snax import LayoutCast
+        from snaxc.dialects.tsl import TiledStridedLayoutAttr
+        from xdsl.dialects import builtin, memref
+        passes = "set-memory-space,set-memory-layout{tiled=%s}" % ("true" if case["tiled"] else "false")
+        with time_limit(60):
+            out = snaxrun.run_passes(mlir_front(case), passes)
+        mod = snaxrun.parse(out)
+        ops = [op for op in mod.walk() if isinstance(op, dart.ScheduleOp | dart.OperationOp)]
+        assert len(ops) == 1
+
+        def lay_json(ty):
+            lay = ty.layout
+            if isinstance(lay, TiledStridedLayoutAttr):
+                assert lay.data.offset == 0
+                return ["tsl", [[[s.step, s.bound] for s in ts.strides] for ts in lay.data.tstrides]]
+            if isinstance(lay, builtin.StridedLayoutAttr):
+                return ["strided", [x.data for x in lay.strides.data]]
+            if isinstance(lay, builtin.NoneAttr):
+                return None
+            return ["other", str(lay)]
+        res = []
+        for i, v in enumerate(ops[0].operands):
+            o = case["operands"][i]
+            cast = None
+            w = v
+            # walk back through the casts that the passes inserted
+            while isinstance(w.owner, LayoutCast | memref.MemorySpaceCastOp):
+                if isinstance(w.owner, LayoutCast):
+                    cast = lay_json(w.owner.dest.type)
+                    w = w.owner.source
+                else:
+                    w = w.owner.source
+            res.append({"layout": lay_json(v.type), "cast": cast, "origin_layout": lay_json(w.type),
+                        "same_buffer": bool(list(v.type.get_shape()) == list(o["shape"])
+                                            and str(v.type.get_element_type()) == o["el"])})
+        return {"operands": res}
+
     def impl_global(self, case):
         """set-memory-layout, then realize-memref-casts (the next pass of the pipeline): the layout given to the WHOLE global"""
         import snaxrun
@@ -861,6 +949,8 @@ class C09(Prop):
             return self.op_requests(case)
         if k == "multi":
             return [r for op_cases, _ in runs_of(case) for oc in op_cases for r in self.op_requests(oc)]
+        if k == "front":
+            return self.op_requests(dict(case, kind="schedule"))
         if k == "global":
             r = self.op_requests(dict(case, kind="schedule"))[0]
             return [{"fn": "c09.opglobal", "args": dict(r["args"], gshape=case["gshape"], offs=list(case["offs"]),
@@ -882,6 +972,16 @@ class C09(Prop):
         k = case["kind"]
         if k == "schedule":
             return self.op_model(answers)
+        if k == "front":
+            # set-memory-space only changes memory spaces; set-memory-layout only rewrites dart.schedule
+            m = self.op_model(answers)
+            lays = [o.get("layout") for o in case["operands"]]
+            if case.get("opname", "dart.schedule") != "dart.schedule" or ("raised" not in m and m["layouts"] is None):
+                return {"operands": [{"layout": l, "cast": None, "origin_layout": l, "same_buffer": True} for l in lays]}
+            if "raised" in m or "model_split" in m:
+                return m
+            return {"operands": [{"layout": ["tsl", ml], "cast": ["tsl", ml], "origin_layout": l, "same_buffer": True}
+                                 for l, ml in zip(lays, m["layouts"])]}
         if k == "global":
             if "raised" in r:
                 return {"raised": r["raised"]}
@@ -952,6 +1052,37 @@ class C09(Prop):
                     return [{"what": f"get_affine_map of {case['layout']} sends element {pt} to {a}, the layout means "
                                      f"{point_address(case['layout'], pt)}", "finding": None}]
             return []
+        if k == "front":
+            flow = "set-memory-space,set-memory-layout"
+            if "raised" in impl_out:
+                if wellformed(dict(case, kind="schedule")) or impl_out["raised"] == "PassTimeout":
+                    return [{"what": f"{flow} raised {impl_out['raised']} on a well-formed op: {impl_out.get('msg')}", "finding": None}]
+                return []
+            out = []
+            has_tsl = any(o.get("layout") and o["layout"][0] == "tsl" for o in case["operands"])
+            sched = case.get("opname", "dart.schedule") == "dart.schedule"
+            for i, (o, r) in enumerate(zip(case["operands"], impl_out["operands"])):
+                given = o.get("layout")
+                if not r["same_buffer"]:
+                    out.append({"what": f"operand {i}: shape / element type changed by {flow}", "finding": None})
+                if r["origin_layout"] != given:
+                    out.append({"what": f"operand {i} ({o['src']}, memory space {o.get('space')}): the explicit layout {given} it was "
+                                        f"created with became {r['origin_layout']} in the flow {flow} (an explicit layout must be "
+                                        f"left untouched)", "finding": None})
+                if given and given[0] == "tsl" and (r["layout"] != given or r["cast"] is not None):
+                    out.append({"what": f"operand {i}: already carries the explicit layout {given}, after {flow} the op consumes "
+                                        f"layout {r['layout']} (layout_cast: {r['cast']})", "finding": None})
+                if (has_tsl or not sched) and r["cast"] is not None:
+                    out.append({"what": f"operand {i}: a layout_cast to {r['cast']} was inserted although "
+                                        + ("an operand of the op already carries an explicit TSL layout" if has_tsl else
+                                           "the op is not a scheduled op"), "finding": None})
+                if sched and not has_tsl:
+                    if r["cast"] is None or r["cast"][0] != "tsl" or r["layout"] != r["cast"]:
+                        out.append({"what": f"operand {i}: no TSL layout_cast feeds the op after {flow}", "finding": None})
+                    else:
+                        out += self.layout_problems(f"operand {i}", o["shape"], r["cast"][1], case_rng(case), "D22",
+                                                    f"({flow}, tiled={case['tiled']})")
+            return out
         if k == "global":
             if "raised" in impl_out:
                 if wellformed(dict(case, kind="schedule")) or impl_out["raised"] == "PassTimeout":
@@ -1114,6 +1245,9 @@ class C09(Prop):
             return f"schedule:{'tiled' if case['tiled'] else 'untiled'}:{case['template']}"
         if k == "multi":
             return f"multi:{case.get('mode', '?')}:{len(case['runs'])}run"
+        if k == "front":
+            has_tsl = any(o.get("layout") and o["layout"][0] == "tsl" for o in case["operands"])
+            return f"front:{case.get('opname', 'dart.schedule')}:" + ("explicit-tsl" if has_tsl else "no-tsl")
         if k == "global":
             tile = case["operands"][0]["shape"]
             if impl_out.get("global") is None:
@@ -1125,7 +1259,7 @@ class C09(Prop):
         return k
 
     def shrink(self, case):
-        if case["kind"] == "schedule":
+        if case["kind"] in ("schedule", "front"):
             yield from self.op_shrink(case)
         elif case["kind"] == "multi":
             runs = case["runs"]
